@@ -1,14 +1,14 @@
 (* Merge.v — executable model of cassis/typesystem.py merge_typesystems (definitions only; proofs in MergeProofs.v).
 
-   What is modelled, as the code does it (file:line of /repo/cassis/typesystem.py at bab0472, merge repaired by 7d9931c):
+   What is modelled, as the code does it (file:line of /repo/cassis/typesystem.py at 13b42b8; merge repaired by 7d9931c and 13b42b8):
      type_list = concatenation of ts.get_types() (1545-1548)  type_list: user_types of every input in argument order; get_types()
                                                                filters _PREDEFINED_TYPES, so uima.tcas.DocumentAnnotation of
                                                                EVERY input is in the list (and is found existing in TypeSystem())
      readiness loop (1556-1618)                               pass / rounds: one pass over the current list, a declaration is
                                                                processed when its supertype is predefined or already in
                                                                merged_types (the set is updated inside the pass), processed
-                                                               declarations are removed; no progress -> ValueError; rounds on
-                                                               explicit fuel (length + 1)
+                                                               declarations are removed; nothing left -> done, else no progress ->
+                                                               ValueError; rounds on explicit fuel (length + 1)
      create-or-merge (1564-1605)                              merge_decl: contains_type(name, exact) / create_type, else
                                                                supertype comparison: own-subtype rejection, re-parenting, no-op,
                                                                incomparable -> ValueError; then every own feature through
